@@ -63,14 +63,21 @@ const UV: &[&str] = &[
     "message/opaque",
     "message/MessageParser",
     "typed-record",
+    "flat-question/NameBuf",
+    "flat-record/NameBuf",
+    "name/UnparsedName.split_bytes",
+    "label/&Label",
+    "charstr/CharStrBuf",
+    "message/header-flag-accessors",
+    "edns-record",
 ];
 const OUT: &[&str] = &["both-accept-equal", "both-reject", "whitelisted-documented-difference", "violation", "not-comparable"];
-static COUNTS: [[AtomicU64; 5]; 17] = {
+static COUNTS: [[AtomicU64; 5]; 24] = {
     #[allow(clippy::declare_interior_mutable_const)]
     const Z: AtomicU64 = AtomicU64::new(0);
     #[allow(clippy::declare_interior_mutable_const)]
     const R: [AtomicU64; 5] = [Z; 5];
-    [R; 17]
+    [R; 24]
 };
 fn uv(name: &str) -> usize {
     UV.iter().position(|x| *x == name).expect("unknown unit/view")
@@ -303,6 +310,11 @@ struct Item {
 /// Typed view of one record: Err = typed parse failed; Ok((is_unknown_variant, uncompressed rdata)).
 type Typed = Result<(bool, Vec<u8>), ()>;
 
+/// EDNS view of an OPT record: payload size, extended rcode octet, version,
+/// DO flag, options as (code, data, typed parse of a COOKIE / EDE option ok).
+type EdnsObs = (u16, u8, u8, bool, Vec<(u16, Vec<u8>, bool)>);
+type HFlags = (bool, u8, bool, bool, bool, bool, bool, bool, u8);
+
 #[derive(Clone, Debug, Default)]
 struct MsgObs {
     header: (u16, u16, [u16; 4]),
@@ -313,6 +325,10 @@ struct MsgObs {
     typed: Vec<Option<Typed>>,
     /// new only: MessageParser sequence: Ok(item as normalised) / Err
     mp: Vec<Result<(Item, Vec<u8>), ()>>,
+    /// header flags through the codec's accessors
+    hflags: Option<HFlags>,
+    /// EDNS view of additional-section OPT records with root owner (same index as items)
+    edns: Vec<Option<EdnsObs>>,
 }
 
 #[derive(Default)]
@@ -323,6 +339,11 @@ struct Obs {
     questions: Vec<[QObs; 2]>,
     records: Vec<[RObs; 2]>,
     charstr: Vec<NameObs>,
+    charstr_buf: Vec<NameObs>,
+    flatq: Vec<QObs>,
+    flatr: Vec<RObs>,
+    unparsed_flat: Vec<Option<usize>>,
+    label: Vec<NameObs>,
     msg: Option<MsgObs>,
     errs: Vec<String>,
 }
@@ -373,6 +394,22 @@ fn old_typed(r: &ParsedRecord<'_, [u8]>) -> Typed {
     }
 }
 
+fn old_edns(r: &ParsedRecord<'_, [u8]>, header: ob::Header) -> Option<EdnsObs> {
+    use domain::base::opt::{AllOptData, Opt, OptRecord, UnknownOptData};
+    let rec = r.to_record::<Opt<&[u8]>>().ok()??;
+    let o = OptRecord::from_record(rec);
+    let raw: Vec<Result<UnknownOptData<&[u8]>, _>> = o.opt().iter::<UnknownOptData<&[u8]>>().take(LIMIT).collect();
+    let typed: Vec<bool> = o.opt().iter::<AllOptData<&[u8], ob::Name<&[u8]>>>().take(LIMIT).map(|x| x.is_ok()).collect();
+    let mut opts = Vec::new();
+    for (i, x) in raw.iter().enumerate() {
+        let x = x.as_ref().ok()?;
+        let code = x.code().to_int();
+        let ok = if code == 10 || code == 15 { typed.get(i).copied().unwrap_or(false) } else { true };
+        opts.push((code, x.data().to_vec(), ok));
+    }
+    Some((o.udp_payload_size(), (o.rcode(header).to_int() >> 4) as u8, o.version(), o.dnssec_ok(), opts))
+}
+
 fn observe_old(msg: &[u8], offsets: &[usize]) -> Obs {
     let mut o = Obs::default();
     for &pos in offsets {
@@ -397,11 +434,32 @@ fn observe_old(msg: &[u8], offsets: &[usize]) -> Obs {
         o.questions.push([q.clone(), q]);
         let r = old_record_at(msg, pos);
         o.records.push([r.clone(), r]);
-        o.charstr.push((|| {
+        let cs: NameObs = (|| {
             let mut p = old_parser(msg, pos)?;
             let c = ob::charstr::CharStr::<&[u8]>::parse(&mut p).ok()?;
             Some((c.as_slice().to_vec(), p.pos()))
-        })());
+        })();
+        o.charstr.push(cs.clone());
+        o.charstr_buf.push(cs);
+        // uncompressed question / record: the established codec's flat name
+        // followed by the fixed fields read by the harness
+        let f = &o.flat.last().unwrap()[0];
+        o.flatq.push(f.as_ref().and_then(|(w, e)| {
+            let b = msg.get(*e..*e + 4)?;
+            Some((w.clone(), u16::from_be_bytes([b[0], b[1]]), u16::from_be_bytes([b[2], b[3]]), e + 4))
+        }));
+        o.flatr.push(f.as_ref().and_then(|(w, e)| {
+            let b = msg.get(*e..*e + 10)?;
+            let rdlen = u16::from_be_bytes([b[8], b[9]]) as usize;
+            let rd = msg.get(e + 10..e + 10 + rdlen)?;
+            Some((w.clone(), u16::from_be_bytes([b[0], b[1]]), u16::from_be_bytes([b[2], b[3]]), u32::from_be_bytes([b[4], b[5], b[6], b[7]]), rd.to_vec(), e + 10 + rdlen))
+        }));
+        o.unparsed_flat.push(*o.skip.last().unwrap());
+        o.label.push(msg.get(pos..).and_then(|b| ob::name::Label::split_from(b).ok()).map(|(l, rest)| {
+            let mut w = vec![l.len() as u8];
+            w.extend_from_slice(l.as_slice());
+            (w, msg.len() - rest.len())
+        }));
     }
     // whole message
     o.msg = (|| {
@@ -411,6 +469,7 @@ fn observe_old(msg: &[u8], offsets: &[usize]) -> Obs {
         let c = m.header_counts();
         mo.header = (h.id(), u16::from_be_bytes([m.as_slice()[2], m.as_slice()[3]]), [c.qdcount(), c.ancount(), c.nscount(), c.arcount()]);
         let _ = h.flags();
+        mo.hflags = Some((h.qr(), h.opcode().to_int(), h.aa(), h.tc(), h.rd(), h.ra(), h.ad(), h.cd(), h.rcode().to_int()));
         let mut q = m.question();
         for _ in 0..LIMIT {
             let pos = q.pos();
@@ -418,6 +477,7 @@ fn observe_old(msg: &[u8], offsets: &[usize]) -> Obs {
                 Some(Ok(x)) => {
                     mo.items.push(Item { sec: 0, pos, name: old_labels_wire(x.qname()), t: x.qtype().to_int(), c: x.qclass().to_int(), ttl: 0, rdata: vec![] });
                     mo.typed.push(None);
+                    mo.edns.push(None);
                 }
                 Some(Err(_)) => {
                     mo.err_at = Some((0, pos));
@@ -447,6 +507,7 @@ fn observe_old(msg: &[u8], offsets: &[usize]) -> Obs {
                         };
                         mo.items.push(Item { sec: s, pos, name: old_labels_wire(&r.owner()), t: r.rtype().to_int(), c: r.class().to_int(), ttl: r.ttl().as_secs(), rdata: data });
                         mo.typed.push(Some(old_typed(&r)));
+                        mo.edns.push(if s == 3 && r.rtype().to_int() == 41 && r.owner().is_root() { old_edns(&r, h) } else { None });
                     }
                     Some(Err(_)) => {
                         mo.err_at = Some((s, pos));
@@ -598,17 +659,102 @@ fn new_typed_record(contents: &[u8], start: usize, sec: u8, errs: &mut Vec<Strin
             Err(_) => Err(()),
         }
     } else {
+        let boxed = nb::Record::<RevNameBuf, domain::new::rdata::BoxedRecordData>::split_message_bytes(contents, start);
         match nb::Record::<RevNameBuf, NRecordData<'_, NameBuf>>::split_message_bytes(contents, start) {
             Ok((rec, _)) => match build_vec(&rec.rdata) {
-                Ok(v) => Ok((matches!(rec.rdata, NRecordData::Unknown(..)), v)),
+                Ok(v) => {
+                    // a second representation of the same content
+                    match &boxed {
+                        Ok((b, _)) => {
+                            let c = b.rdata.clone();
+                            if b.rdata.bytes() != &v[..] || b.rdata.rtype() != rec.rtype || rec.rdata.rtype() != rec.rtype || !(c == b.rdata) || build_vec(&b.rdata.get()).ok().as_deref() != Some(&v[..]) {
+                                errs.push("new|BoxedRecordData|content-differs-from-RecordData".into());
+                            }
+                        }
+                        Err(_) => errs.push("new|BoxedRecordData|rejects-what-RecordData-accepts".into()),
+                    }
+                    // the compression-less entry point, when nothing is compressed
+                    if let Ok((fr, _)) = nb::Record::<NameBuf, &UnparsedRecordData>::split_bytes(&contents[start..]) {
+                        let flat = nb::Record::<NameBuf, NRecordData<'_, NameBuf>>::split_bytes(&contents[start..]);
+                        match flat {
+                            Ok((f, _)) => {
+                                if build_vec(&f.rdata).ok().as_deref() != Some(&v[..]) {
+                                    errs.push("new|RecordData|parse_record_data_bytes-content-differs-from-parse_record_data".into());
+                                }
+                            }
+                            Err(_) => {
+                                if v[..] == fr.rdata[..] {
+                                    errs.push("new|RecordData|parse_record_data_bytes-rejects-uncompressed-data-parse_record_data-accepts".into());
+                                }
+                            }
+                        }
+                    }
+                    Ok((matches!(rec.rdata, NRecordData::Unknown(..)), v))
+                }
                 Err(()) => {
                     errs.push("new|typed|rdata-build_bytes-fails".into());
                     Err(())
                 }
             },
-            Err(_) => Err(()),
+            Err(_) => {
+                if boxed.is_ok() {
+                    errs.push("new|BoxedRecordData|accepts-what-RecordData-rejects".into());
+                }
+                Err(())
+            }
         }
     }
+}
+
+fn new_edns(contents: &[u8], start: usize, errs: &mut Vec<String>) -> Option<EdnsObs> {
+    use domain::new::edns::EdnsOption;
+    let (e, end) = EdnsRecord::<&NOpt>::split_message_bytes(contents, start).ok()?;
+    // the same record through the generic Record type and the conversions
+    match nb::Record::<RevNameBuf, NRecordData<'_, NameBuf>>::split_message_bytes(contents, start) {
+        Ok((rec, end2)) => match EdnsRecord::<&NOpt>::try_from(rec) {
+            Ok(e2) => {
+                if !(e2 == e) || end2 != end {
+                    errs.push("new|EdnsRecord|try_from(Record)-differs-from-direct-parse".into());
+                }
+            }
+            Err(_) => errs.push("new|EdnsRecord|try_from(Record)-fails-on-a-record-EdnsRecord-parses".into()),
+        },
+        Err(_) => errs.push("new|EdnsRecord|accepted-but-Record<RecordData>-rejects".into()),
+    }
+    match EdnsRecord::<&NOpt>::parse_message_bytes(&contents[..end], start) {
+        Ok(e3) if e3 == e => {}
+        _ => errs.push("new|EdnsRecord|parse_message_bytes-vs-split_message_bytes".into()),
+    }
+    let t = e.transform_ref(|o| *o);
+    let t2 = e.clone().transform(|o| o);
+    if !(t == e) || !(t2 == e) || (t.max_udp_payload, t.ext_rcode, t.version, t.flags.bits()) != (e.max_udp_payload, e.ext_rcode, e.version, e.flags.bits()) {
+        errs.push("new|EdnsRecord|transform-changes-a-field".into());
+    }
+    if build_vec(&e).ok().as_deref() != Some(&contents[start..end]) {
+        errs.push("new|EdnsRecord|build_bytes-does-not-reproduce-the-parsed-octets".into());
+    }
+    // flags word against the octets
+    if e.flags.bits() != u16::from_be_bytes([contents[start + 7], contents[start + 8]]) || e.flags.is_dnssec_ok() != (contents[start + 7] & 0x80 != 0) {
+        errs.push("new|EdnsFlags|bits/is_dnssec_ok-differ-from-the-octets".into());
+    }
+    let mut opts = Vec::new();
+    for o in e.data.options().take(LIMIT) {
+        match o {
+            Ok(o) => {
+                let b = build_vec(&o).ok()?;
+                if b.len() < 4 || u16::from_be_bytes([b[0], b[1]]) != o.code().code.get() {
+                    errs.push("new|EdnsOption|build_bytes-inconsistent-with-code()".into());
+                }
+                // typed parse of the single option agrees with the iterator
+                if EdnsOption::parse_bytes(&b).ok().as_ref() != Some(&o) {
+                    errs.push("new|EdnsOption|parse_bytes(build_bytes(option))-differs".into());
+                }
+                opts.push((o.code().code.get(), b[4.min(b.len())..].to_vec(), true));
+            }
+            Err(u) => opts.push((u.code.code.get(), u.data.to_vec(), false)),
+        }
+    }
+    Some((e.max_udp_payload.get(), e.ext_rcode, e.version, e.flags.is_dnssec_ok(), opts))
 }
 
 fn observe_new(msg: &[u8], offsets: &[usize], old_ends: &[Option<usize>]) -> Obs {
@@ -624,6 +770,11 @@ fn observe_new(msg: &[u8], offsets: &[usize], old_ends: &[Option<usize>]) -> Obs
                 o.questions.push([None, None]);
                 o.records.push([None, None]);
                 o.charstr.push(None);
+                o.charstr_buf.push(None);
+                o.flatq.push(None);
+                o.flatr.push(None);
+                o.unparsed_flat.push(None);
+                o.label.push(None);
                 continue;
             }
             let start = pos - 12;
@@ -646,7 +797,60 @@ fn observe_new(msg: &[u8], offsets: &[usize], old_ends: &[Option<usize>]) -> Obs
             o.flat.push([f0, f1, f2]);
             o.questions.push([new_question::<RevNameBuf>(contents, start, &mut errs), new_question::<NameBuf>(contents, start, &mut errs)]);
             o.records.push([new_record::<RevNameBuf>(contents, start, &mut errs), new_record::<NameBuf>(contents, start, &mut errs)]);
-            o.charstr.push(<&CharStr>::split_message_bytes(contents, start).ok().map(|(c, end)| (c.octets.to_vec(), end + 12)));
+            let cs: NameObs = <&CharStr>::split_message_bytes(contents, start).ok().map(|(c, end)| (c.octets.to_vec(), end + 12));
+            if let Some((w, end)) = &cs {
+                let c = <&CharStr>::parse_message_bytes(&contents[..end - 12], start);
+                match c {
+                    Ok(c) if c.octets == w[..] && c.len() == w.len() && c.is_empty() == w.is_empty() => {
+                        if build_vec(c).ok().as_deref() != Some(&contents[start..end - 12]) {
+                            errs.push("new|CharStr|build_bytes-does-not-reproduce-the-parsed-octets".into());
+                        }
+                    }
+                    _ => errs.push("new|CharStr|parse_message_bytes-vs-split_message_bytes".into()),
+                }
+            }
+            o.charstr.push(cs);
+            o.charstr_buf.push(nb::CharStrBuf::split_message_bytes(contents, start).ok().map(|(c, end)| {
+                if c.wire_bytes() != &contents[start..end] || build_vec(&c).ok().as_deref() != Some(&contents[start..end]) {
+                    errs.push("new|CharStrBuf|wire_bytes/build_bytes-do-not-reproduce-the-parsed-octets".into());
+                }
+                (c.octets.to_vec(), end + 12)
+            }));
+            o.flatq.push(nb::Question::<NameBuf>::split_bytes(bytes).ok().map(|(q, rest)| {
+                let end = msg.len() - rest.len();
+                if build_vec(&q).ok().as_deref() != Some(&msg[pos..end]) {
+                    errs.push("new|Question|build_bytes-does-not-reproduce-an-uncompressed-question".into());
+                }
+                if nb::Question::<RevNameBuf>::parse_bytes(&msg[pos..end]).ok().map(|x| x.qname.wire(&mut errs)) != Some(q.qname.as_bytes().to_vec()) {
+                    errs.push("new|Question|parse_bytes-vs-split_bytes".into());
+                }
+                (q.qname.wire(&mut errs), q.qtype.code.get(), q.qclass.code.get(), end)
+            }));
+            o.flatr.push(nb::Record::<NameBuf, &UnparsedRecordData>::split_bytes(bytes).ok().map(|(r, rest)| {
+                let end = msg.len() - rest.len();
+                if build_vec(&r).ok().as_deref() != Some(&msg[pos..end]) {
+                    errs.push("new|Record|build_bytes-does-not-reproduce-an-uncompressed-record".into());
+                }
+                if nb::Record::<RevNameBuf, &UnparsedRecordData>::parse_bytes(&msg[pos..end]).is_err() {
+                    errs.push("new|Record|parse_bytes-vs-split_bytes".into());
+                }
+                (r.rname.wire(&mut errs), r.rtype.code.get(), r.rclass.code.get(), r.ttl.value.get(), r.rdata.to_vec(), end)
+            }));
+            o.unparsed_flat.push(<&UnparsedName>::split_bytes(bytes).ok().map(|(u, rest)| {
+                let end = msg.len() - rest.len();
+                if u.as_bytes() != &msg[pos..end] {
+                    errs.push("new|UnparsedName|split_bytes-bytes-differ-from-input-range".into());
+                }
+                let ptr = if end - pos >= 2 && msg[end - 2] >= 0xC0 && u.as_bytes().len() == 2 { Some(u16::from_be_bytes([msg[end - 2], msg[end - 1]]) & 0x3FFF) } else { None };
+                if u.as_bytes().len() == 2 && u.pointer_value() != ptr {
+                    errs.push("new|UnparsedName|pointer_value-wrong".into());
+                }
+                if u.is_root() != (u.as_bytes() == [0]) {
+                    errs.push("new|UnparsedName|is_root-wrong".into());
+                }
+                end
+            }));
+            o.label.push(<&nb::name::Label>::split_bytes(bytes).ok().map(|(l, rest)| (l.as_wire().to_vec(), msg.len() - rest.len())));
         }
     }
     // whole message, opaque view through the documented low-level API
@@ -655,6 +859,8 @@ fn observe_new(msg: &[u8], offsets: &[usize], old_ends: &[Option<usize>]) -> Obs
         let mut mo = MsgObs::default();
         let counts = *m.header.counts.as_array();
         mo.header = (m.header.id.get(), m.header.flags.bits(), [counts[0].get(), counts[1].get(), counts[2].get(), counts[3].get()]);
+        let nf = m.header.flags;
+        mo.hflags = Some((nf.qr(), nf.opcode(), nf.aa(), nf.tc(), nf.rd(), nf.ra(), nf.ad(), nf.cd(), nf.rcode()));
         let contents = &m.contents;
         let mut off = 0usize;
         'outer: for sec in 0..4u8 {
@@ -664,6 +870,7 @@ fn observe_new(msg: &[u8], offsets: &[usize], old_ends: &[Option<usize>]) -> Obs
                         Ok((q, end)) => {
                             mo.items.push(Item { sec, pos: off + 12, name: q.qname.wire(&mut errs), t: q.qtype.code.get(), c: q.qclass.code.get(), ttl: 0, rdata: vec![] });
                             mo.typed.push(None);
+                            mo.edns.push(None);
                             off = end;
                         }
                         Err(_) => {
@@ -676,6 +883,7 @@ fn observe_new(msg: &[u8], offsets: &[usize], old_ends: &[Option<usize>]) -> Obs
                         Ok((r, end)) => {
                             mo.items.push(Item { sec, pos: off + 12, name: r.rname.wire(&mut errs), t: r.rtype.code.get(), c: r.rclass.code.get(), ttl: r.ttl.value.get(), rdata: r.rdata.to_vec() });
                             mo.typed.push(Some(new_typed_record(contents, off, sec, &mut errs)));
+                            mo.edns.push(if sec == 3 && contents[off..].starts_with(&[0, 0, 41]) { new_edns(contents, off, &mut errs) } else { None });
                             off = end;
                         }
                         Err(_) => {
@@ -902,6 +1110,11 @@ fn compare(cx: &Cx, old: &Obs, new: &Obs) -> CaseSummary {
             }
         }
         cmp_unit(cx, "charstr/&CharStr", pos, &old.charstr[i], &new.charstr[i], || false, name_field);
+        cmp_unit(cx, "charstr/CharStrBuf", pos, &old.charstr_buf[i], &new.charstr_buf[i], || false, name_field);
+        cmp_unit(cx, "flat-question/NameBuf", pos, &old.flatq[i], &new.flatq[i], || false, q_field);
+        cmp_unit(cx, "flat-record/NameBuf", pos, &old.flatr[i], &new.flatr[i], || false, r_field);
+        cmp_unit(cx, "name/UnparsedName.split_bytes", pos, &old.unparsed_flat[i], &new.unparsed_flat[i], || false, |_, _| "end-position");
+        cmp_unit(cx, "label/&Label", pos, &old.label[i], &new.label[i], || false, name_field);
     }
     // whole message
     let uh = uv("message/header");
@@ -921,6 +1134,13 @@ fn compare(cx: &Cx, old: &Obs, new: &Obs) -> CaseSummary {
             } else {
                 bump(uh, 3);
                 cx.viol("C19|parse|unit=message/header|content-differs", &format!("header (id, flags, counts): established {:?}, new {:?}", o.header, n.header));
+            }
+            let uf = uv("message/header-flag-accessors");
+            if o.hflags == n.hflags {
+                bump(uf, 0);
+            } else {
+                bump(uf, 3);
+                cx.viol("C19|parse|unit=message/header-flag-accessors|content-differs", &format!("(qr, opcode, aa, tc, rd, ra, ad, cd, rcode): established {:?}, new {:?}", o.hflags, n.hflags));
             }
             nontrivial |= compare_messages(cx, o, n);
         }
@@ -1032,6 +1252,47 @@ fn compare_messages(cx: &Cx, o: &MsgObs, n: &MsgObs) -> bool {
             }
         }
     }
+    // EDNS view of OPT records
+    let ue = uv("edns-record");
+    for i in 0..agreed {
+        match (&o.edns[i], &n.edns[i]) {
+            (Some(a), Some(b)) => {
+                // the typed validity of a COOKIE / extended-error option (e.g. the
+                // new codec insists on UTF-8 EXTRA-TEXT, RFC 8914) is semantic
+                // validation: counted, not asserted
+                let same_wire = (a.0, a.1, a.2, a.3) == (b.0, b.1, b.2, b.3) && a.4.iter().map(|x| (&x.0, &x.1)).eq(b.4.iter().map(|x| (&x.0, &x.1)));
+                if same_wire && a != b {
+                    for (x, y) in a.4.iter().zip(&b.4) {
+                        if x.2 != y.2 {
+                            *STRICTNESS.lock().unwrap().entry(format!("edns-option={}|{}", x.0, if x.2 { "old=accept,new=reject" } else { "old=reject,new=accept" })).or_insert(0) += 1;
+                        }
+                    }
+                }
+                if same_wire {
+                    bump(ue, 0);
+                } else {
+                    bump(ue, 3);
+                    let field = if a.0 != b.0 {
+                        "udp-payload-size"
+                    } else if a.1 != b.1 {
+                        "extended-rcode"
+                    } else if a.2 != b.2 {
+                        "version"
+                    } else if a.3 != b.3 {
+                        "DO-flag"
+                    } else if a.4.iter().map(|x| (&x.0, &x.1)).ne(b.4.iter().map(|x| (&x.0, &x.1))) {
+                        "options"
+                    } else {
+                        "typed-validity-of-a-COOKIE-or-EDE-option"
+                    };
+                    cx.viol(&format!("C19|parse|unit=edns-record|content-differs|field={field}"), &format!("item {i}: established {a:?}, new {b:?}"), );
+                }
+            }
+            (None, None) => {}
+            // acceptance of the record as OPT is compared by the typed-record unit (type 41)
+            _ => bump(ue, 4),
+        }
+    }
     // MessageParser (mid-level API) must be the low-level API applied in sequence
     let up = uv("message/MessageParser");
     let mut expect: Vec<bool> = Vec::new();
@@ -1075,6 +1336,47 @@ fn compare_messages(cx: &Cx, o: &MsgObs, n: &MsgObs) -> bool {
     agreed > 0
 }
 
+/// Conversions between the codecs' name types and name equality: every name
+/// the established codec parsed (compressed or flat) is converted with
+/// `From<&base::Name>` into both new name types and back; equality of
+/// neighbouring names must be judged alike by both codecs.
+fn cross_checks(old: &Obs) -> Vec<String> {
+    let mut errs = Vec::new();
+    let mut prev: Option<Vec<u8>> = None;
+    for n in old.names.iter().filter_map(|n| n[0].as_ref()) {
+        let w = &n.0;
+        let Ok(on) = ob::Name::from_octets(w.as_slice()) else {
+            errs.push("cross|established-Name-refuses-wire-form-of-a-parsed-name".into());
+            continue;
+        };
+        let a = NameBuf::from(&on);
+        let r = RevNameBuf::from(&on);
+        if a.as_bytes() != &w[..] || r.wire(&mut errs) != *w {
+            errs.push("cross|From<&base::Name>-changes-the-name".into());
+        }
+        if a.to_revname().wire(&mut errs) != *w || r.to_name().as_bytes() != &w[..] || RevNameBuf::from(a.clone()).wire(&mut errs) != *w {
+            errs.push("cross|to_revname/to_name-change-the-name".into());
+        }
+        if a.is_root() != (w.len() == 1) || r.is_root() != (w.len() == 1) {
+            errs.push("cross|is_root-wrong".into());
+        }
+        if let Some(p) = &prev {
+            let op = ob::Name::from_octets(p.as_slice()).expect("name");
+            let (pa, pr) = (NameBuf::from(&op), RevNameBuf::from(&op));
+            let want = on == op;
+            if (a == pa) != want || (r == pr) != want || (*a == *pa) != want {
+                errs.push(format!("cross|name-equality-differs|established={want}"));
+            }
+            use std::cmp::Ordering;
+            if ((a.cmp(&pa) == Ordering::Equal) != want) || ((r.cmp(&pr) == Ordering::Equal) != want) {
+                errs.push(format!("cross|name-cmp-equal-differs-from-eq|established={want}"));
+            }
+        }
+        prev = Some(w.clone());
+    }
+    errs
+}
+
 fn run_parse_case(ctx: &Ctx, stats: &Stats, wd: &Watchdog, msg: &[u8], offsets: &[usize], family: &str) {
     stats.eval();
     wd.enter(|| parse_case_json(msg, offsets, family));
@@ -1084,6 +1386,10 @@ fn run_parse_case(ctx: &Ctx, stats: &Stats, wd: &Watchdog, msg: &[u8], offsets: 
         Err(_) => vec![None; offsets.len()],
     };
     let new = guard(|| observe_new(msg, offsets, &old_ends));
+    let cross = match &old {
+        Ok(o) => guard(|| cross_checks(o)),
+        Err(_) => Ok(vec![]),
+    };
     wd.leave();
     let cx = Cx { ctx, msg, offsets, family, verbose: ctx.replay.is_some() };
     match (&old, &new) {
@@ -1091,6 +1397,14 @@ fn run_parse_case(ctx: &Ctx, stats: &Stats, wd: &Watchdog, msg: &[u8], offsets: 
             if cx.verbose {
                 println!("established codec: names {:?}\n  questions {:?}\n  records {:?}\n  message {:?}", o.names.iter().map(|x| &x[0]).collect::<Vec<_>>(), o.questions.iter().map(|x| &x[0]).collect::<Vec<_>>(), o.records.iter().map(|x| &x[0]).collect::<Vec<_>>(), o.msg);
                 println!("new codec: names {:?}\n  unparsed {:?}\n  questions {:?}\n  records {:?}\n  message {:?}", n.names, n.skip, n.questions, n.records, n.msg);
+            }
+            match &cross {
+                Ok(errs) => {
+                    for e in errs {
+                        cx.viol(&format!("C19|parse|{e}"), e);
+                    }
+                }
+                Err(p) => cx.viol(&format!("C19|parse|panic|name-conversions|{}", panic_class(p)), p),
             }
             let s = compare(&cx, o, n);
             if s.nontrivial {
@@ -1629,6 +1943,39 @@ enum Op {
     /// an unknown-type record with root owner in the answer section whose
     /// RDATA length makes the record END at this message offset
     PadTo(usize),
+    /// an EDNS record: indices into EDNS_PAYLOADS, EDNS_EXT, EDNS_VER, the DO
+    /// flag, index into edns_optsets()
+    Edns(u8, u8, u8, bool, u8),
+    /// new builder only: MessageBuilder::truncate() ("remove all message
+    /// contents and mark it as truncated")
+    Truncate,
+    /// new builder only: finish this message and begin another one with the
+    /// same NameCompressor
+    NewMessage,
+}
+
+const EDNS_PAYLOADS: [u16; 4] = [0, 512, 1232, 65535];
+const EDNS_EXT: [u8; 3] = [0, 1, 255];
+const EDNS_VER: [u8; 3] = [0, 1, 255];
+/// option sets: (code, data)
+fn edns_optsets() -> Vec<Vec<(u16, Vec<u8>)>> {
+    vec![
+        vec![],
+        vec![(10, vec![1, 2, 3, 4, 5, 6, 7, 8])],
+        vec![(10, (1..=16).collect())],
+        vec![(15, vec![0, 18, b'b', b'a', b'd'])],
+        vec![(65001, vec![1, 2, 3, 4])],
+        vec![(10, vec![8, 7, 6, 5, 4, 3, 2, 1]), (65001, vec![])],
+    ]
+}
+fn edns_tlv(set: &[(u16, Vec<u8>)]) -> Vec<u8> {
+    let mut v = Vec::new();
+    for (c, d) in set {
+        v.extend_from_slice(&c.to_be_bytes());
+        v.extend_from_slice(&(d.len() as u16).to_be_bytes());
+        v.extend_from_slice(d);
+    }
+    v
 }
 
 const OPS: [Op; 14] = [
@@ -1662,6 +2009,9 @@ fn op_desc(op: Op, names: &[Vec<u8>]) -> String {
             }
         ),
         Op::PadTo(t) => format!("answer record . TYPE65280 padded so that it ends at message offset {t}"),
+        Op::Edns(p, e, v, d, o) => format!("EDNS record payload={} ext_rcode={} version={} DO={} options={:?}", EDNS_PAYLOADS[p as usize], EDNS_EXT[e as usize], EDNS_VER[v as usize], d, edns_optsets()[o as usize]),
+        Op::Truncate => "truncate() (new builder only)".to_string(),
+        Op::NewMessage => "finish(); MessageBuilder::new() with the same compressor (new builder only)".to_string(),
     }
 }
 
@@ -1690,6 +2040,15 @@ fn intended(op: Op, names: &[Vec<u8>], padlen: usize) -> Norm {
             Norm { sec: s, name: names[n].to_ascii_lowercase(), t, c: 1, ttl: TTL, rdata }
         }
         Op::PadTo(_) => Norm { sec: 1, name: vec![0], t: PAD_TYPE, c: 1, ttl: TTL, rdata: vec![0xEE; padlen] },
+        Op::Edns(p, e, v, d, o) => Norm {
+            sec: 3,
+            name: vec![0],
+            t: 41,
+            c: EDNS_PAYLOADS[p as usize],
+            ttl: (EDNS_EXT[e as usize] as u32) << 24 | (EDNS_VER[v as usize] as u32) << 16 | (d as u32) << 15,
+            rdata: edns_tlv(&edns_optsets()[o as usize]),
+        },
+        Op::Truncate | Op::NewMessage => unreachable!("not an item"),
     }
 }
 
@@ -1698,6 +2057,8 @@ fn op_section(op: Op) -> usize {
         Op::Q(_) => 0,
         Op::R(s, _, _) => s as usize,
         Op::PadTo(_) => 1,
+        Op::Edns(..) => 3,
+        Op::Truncate | Op::NewMessage => 0,
     }
 }
 
@@ -1719,6 +2080,9 @@ struct BuildOut {
     accepted: u32,
     misplaced: u32,
     pad_skipped: u32,
+    truncated_pushes: u32,
+    /// expected header flags word
+    want_flags: u16,
 }
 
 enum OB {
@@ -1769,6 +2133,9 @@ fn run_old(ops: &[Op], names: &[Vec<u8>]) -> BuildOut {
     let mut b = OB::Q(ob::MessageBuilder::from_target(TreeCompressor::new(Vec::<u8>::new())).expect("target").question());
     let mut counts = [0usize; 4];
     for &op in ops {
+        if op == Op::Truncate || op == Op::NewMessage {
+            continue;
+        }
         let s = op_section(op);
         if counts[s + 1..].iter().any(|c| *c > 0) {
             out.misplaced += 1;
@@ -1801,6 +2168,26 @@ fn run_old(ops: &[Op], names: &[Vec<u8>]) -> BuildOut {
                     OB::An(x) => x.push(rec).is_ok(),
                     OB::Ns(x) => x.push(rec).is_ok(),
                     OB::Ar(x) => x.push(rec).is_ok(),
+                    _ => unreachable!(),
+                }
+            }
+            Op::Truncate | Op::NewMessage => unreachable!(),
+            Op::Edns(p, e, v, d, o) => {
+                use octseq::OctetsBuilder;
+                let set = &edns_optsets()[o as usize];
+                match &mut b {
+                    OB::Ar(x) => x
+                        .opt(|opt| {
+                            opt.set_udp_payload_size(EDNS_PAYLOADS[p as usize]);
+                            opt.set_rcode(ob::iana::OptRcode::masked_from_int((EDNS_EXT[e as usize] as u16) << 4));
+                            opt.set_version(EDNS_VER[v as usize]);
+                            opt.set_dnssec_ok(d);
+                            for (c, data) in set {
+                                opt.push_raw_option(ob::iana::OptionCode::from_int(*c), data.len() as u16, |t| t.append_slice(data))?;
+                            }
+                            Ok(())
+                        })
+                        .is_ok(),
                     _ => unreachable!(),
                 }
             }
@@ -1840,12 +2227,29 @@ fn push_rec<N: domain::new::base::build::BuildInMessage>(b: &mut NewBuilder<'_, 
 
 /// `rev_owner`: owner names and qnames are given as RevNameBuf (compress_revname),
 /// otherwise as &Name (compress_name); names in RDATA are always &Name.
-fn run_new(ops: &[Op], names: &[Vec<u8>], rev_owner: bool) -> BuildOut {
+fn run_new(ops: &[Op], names: &[Vec<u8>], rev_owner: bool, limit: Option<usize>) -> BuildOut {
+    // Op::NewMessage: the message built so far is finished and a new message is
+    // begun with the SAME compressor ("The name compressor will be reset in
+    // case it was used before", MessageBuilder::new); only the last message is checked
+    let mut compressor = NameCompressor::new();
+    let mut out = BuildOut::default();
+    let mut stats = (0u32, 0u32, 0u32, 0u32);
+    for seg in ops.split(|o| *o == Op::NewMessage) {
+        out = run_new_message(seg, names, rev_owner, limit, &mut compressor);
+        stats = (stats.0 + out.accepted, stats.1 + out.misplaced, stats.2 + out.pad_skipped, stats.3 + out.truncated_pushes);
+        if !out.errs.is_empty() {
+            break;
+        }
+    }
+    (out.accepted, out.misplaced, out.pad_skipped, out.truncated_pushes) = stats;
+    out
+}
+
+fn run_new_message(ops: &[Op], names: &[Vec<u8>], rev_owner: bool, limit: Option<usize>, compressor: &mut NameCompressor) -> BuildOut {
     let mut out = BuildOut::default();
     let pads = ops.iter().any(|o| matches!(o, Op::PadTo(_)));
     let mut buffer = vec![0u8; if pads { 24 * 1024 } else { 12 + 300 * ops.len().max(1) }];
-    let mut compressor = NameCompressor::new();
-    let mut b = NewBuilder::new(&mut buffer, &mut compressor, U16::new(0), HeaderFlags::default());
+    let mut b = NewBuilder::new(&mut buffer, compressor, U16::new(0), HeaderFlags::default());
     let mut counts = [0usize; 4];
     let pad_store = vec![0xEEu8; if pads { 17000 } else { 0 }];
     // the names are handed to the builder as NameBuf / RevNameBuf parsed from
@@ -1878,7 +2282,20 @@ fn run_new(ops: &[Op], names: &[Vec<u8>], rev_owner: bool) -> BuildOut {
     };
     let root_n = NameBuf::parse_bytes(&[0]).expect("root");
     let root_r = RevNameBuf::parse_bytes(&[0]).expect("root");
+    if let Some(l) = limit {
+        if b.limit_to(l).is_err() {
+            out.errs.push("new-builder|limit_to-refuses-a-limit-above-the-current-size".into());
+        }
+    }
+    let optsets = edns_optsets();
     for &op in ops {
+        if op == Op::Truncate {
+            b.truncate();
+            counts = [0; 4];
+            out.want.clear();
+            out.want_flags |= 0x0200;
+            continue;
+        }
         let s = op_section(op);
         let misplaced = counts[s + 1..].iter().any(|c| *c > 0);
         let cur = 12 + b.message().contents.len();
@@ -1914,6 +2331,28 @@ fn run_new(ops: &[Op], names: &[Vec<u8>], rev_owner: bool) -> BuildOut {
                     push_rec::<&NName>(&mut b, sec, &nbufs[n], rtype, rdata)
                 }
             }
+            Op::Truncate | Op::NewMessage => unreachable!(),
+            Op::Edns(p, e, v, d, o) => {
+                let tlv = edns_tlv(&optsets[o as usize]);
+                let flags = domain::new::edns::EdnsFlags::default().set_dnssec_ok(d);
+                if rev_owner {
+                    // options given as unparsed '&Opt'
+                    let opt = NOpt::parse_bytes_by_ref(&tlv).expect("valid options");
+                    let rec = EdnsRecord { max_udp_payload: U16::new(EDNS_PAYLOADS[p as usize]), ext_rcode: EDNS_EXT[e as usize], version: EDNS_VER[v as usize], flags, data: domain::new::base::wire::SizePrefixed::new(opt) };
+                    b.push_edns(&rec).map_err(MessageBuildError::Truncated)
+                } else {
+                    // options given as a slice of typed 'EdnsOption's
+                    let mut typed = Vec::new();
+                    let mut rest = &tlv[..];
+                    while !rest.is_empty() {
+                        let (o, r) = domain::new::edns::EdnsOption::split_bytes(rest).expect("valid option");
+                        typed.push(o);
+                        rest = r;
+                    }
+                    let rec = EdnsRecord { max_udp_payload: U16::new(EDNS_PAYLOADS[p as usize]), ext_rcode: EDNS_EXT[e as usize], version: EDNS_VER[v as usize], flags, data: domain::new::base::wire::SizePrefixed::new(&typed[..]) };
+                    b.push_edns(&rec).map_err(MessageBuildError::Truncated)
+                }
+            }
             Op::PadTo(_) => {
                 let data = NewUnknown::parse_bytes_by_ref(&pad_store[..padlen]).expect("unknown data");
                 let rdata = NRecordData::<'_, &NName>::Unknown(nb::RType::from(PAD_TYPE), data);
@@ -1932,6 +2371,8 @@ fn run_new(ops: &[Op], names: &[Vec<u8>], rev_owner: bool) -> BuildOut {
                 out.accepted += 1;
                 out.want.push(intended(op, names, padlen));
             }
+            // with a size limit, whether an item still fits is taken from the implementation
+            (false, Err(MessageBuildError::Truncated(_))) if limit.is_some() => out.truncated_pushes += 1,
             (false, Err(e)) => out.errs.push(format!("new-builder|push-refused-with-ample-buffer|{}", if e == MessageBuildError::Misplaced { "Misplaced" } else { "Truncated" })),
         }
     }
@@ -2063,11 +2504,19 @@ struct BuildStats {
     misplaced: AtomicU64,
     pad_skipped: AtomicU64,
     checks_ok: AtomicU64,
+    limited: AtomicU64,
+    truncated_pushes: AtomicU64,
 }
 
 fn cause_of(ops: &[Op], len: usize) -> &'static str {
     let uses = |n: usize| ops.iter().any(|o| matches!(o, Op::Q(x) | Op::R(_, x, _) if *x == n) || matches!(o, Op::R(_, _, Rd::Ns(x) | Rd::Cname(x)) if *x == n));
-    if ops.iter().any(|o| matches!(o, Op::R(_, x, _) if *x >= SM0)) {
+    if ops.contains(&Op::NewMessage) {
+        "compressor-reused-for-a-second-message"
+    } else if ops.contains(&Op::Truncate) {
+        "script-with-truncate()"
+    } else if ops.iter().any(|o| matches!(o, Op::Edns(..))) {
+        "script-with-EDNS-record"
+    } else if ops.iter().any(|o| matches!(o, Op::R(_, x, _) if *x >= SM0)) {
         "names-over-a-small-label-alphabet"
     } else if ops.iter().any(|o| matches!(o, Op::R(_, x, _) if *x >= FOLD0) || matches!(o, Op::R(_, _, Rd::Ns(x)) if *x > FOLD0)) {
         "names-differing-in-bit-0x20-of-an-octet"
@@ -2121,22 +2570,36 @@ fn run_lru_case(ctx: &Ctx, stats: &Stats, bs: &BuildStats, wd: &Watchdog, head: 
 
 #[allow(clippy::too_many_arguments)]
 fn run_build_ops(ctx: &Ctx, stats: &Stats, bs: &BuildStats, wd: &Watchdog, ops: &[Op], case_base: &Value, key: u64, names: &[Vec<u8>]) {
+    run_build_ops_limited(ctx, stats, bs, wd, ops, case_base, key, names, None);
+}
+
+/// Returns the lengths of the messages built by the two new-builder configurations.
+#[allow(clippy::too_many_arguments)]
+fn run_build_ops_limited(ctx: &Ctx, stats: &Stats, bs: &BuildStats, wd: &Watchdog, ops: &[Op], case_base: &Value, key: u64, names: &[Vec<u8>], limit: Option<usize>) -> [usize; 2] {
     let ops: Vec<Op> = ops.to_vec();
     let verbose = ctx.replay.is_some();
+    let new_only = limit.is_some() || ops.contains(&Op::Truncate) || ops.contains(&Op::NewMessage);
+    let mut lens = [0usize; 2];
     for builder in ["established/TreeCompressor", "new/owner=RevNameBuf", "new/owner=&Name"] {
+        if new_only && builder.starts_with("established") {
+            continue;
+        }
         stats.eval();
         bs.sequences.fetch_add(1, AO::Relaxed);
         let case = || {
             let mut c = case_base.clone();
             c["ops_text"] = json!(ops.iter().map(|o| op_desc(*o, names)).collect::<Vec<_>>());
             c["builder"] = json!(builder);
+            if let Some(l) = limit {
+                c["limit"] = json!(l);
+            }
             c
         };
         wd.enter(case);
         let built = guard(|| match builder {
             "established/TreeCompressor" => run_old(&ops, names),
-            "new/owner=RevNameBuf" => run_new(&ops, names, true),
-            _ => run_new(&ops, names, false),
+            "new/owner=RevNameBuf" => run_new(&ops, names, true, limit),
+            _ => run_new(&ops, names, false, limit),
         });
         let out = match built {
             Ok(o) => o,
@@ -2159,6 +2622,21 @@ fn run_build_ops(ctx: &Ctx, stats: &Stats, bs: &BuildStats, wd: &Watchdog, ops: 
             ctx.violation(&format!("C19|build|{e}"), e, case());
         }
         let cause = cause_of(&ops, out.msg.len());
+        if builder == "new/owner=RevNameBuf" {
+            lens[0] = out.msg.len();
+        } else if builder == "new/owner=&Name" {
+            lens[1] = out.msg.len();
+        }
+        if out.msg.len() >= 4 && u16::from_be_bytes([out.msg[2], out.msg[3]]) != out.want_flags {
+            ctx.violation(&format!("C19|build|builder={}|header-flags-differ-from-expected|cause={cause}", builder.replace('/', "(") + ")"), &format!("{builder}: flags word {:#06x}, expected {:#06x}", u16::from_be_bytes([out.msg[2], out.msg[3]]), out.want_flags), case());
+        }
+        if let Some(l) = limit {
+            bs.limited.fetch_add(1, AO::Relaxed);
+            bs.truncated_pushes.fetch_add(out.truncated_pushes as u64, AO::Relaxed);
+            if out.msg.len() > l {
+                ctx.violation(&format!("C19|build|builder={}|message-exceeds-limit_to", builder.replace('/', "(") + ")"), &format!("{builder}: {} octets with limit {l}", out.msg.len()), case());
+            }
+        }
         if verbose {
             println!("{builder}: {} octets, {} items accepted, {} misplaced, {} pads skipped", out.msg.len(), out.accepted, out.misplaced, out.pad_skipped);
             let shown: Vec<u8> = out.msg.iter().cloned().filter(|b| *b != 0xEE).collect();
@@ -2230,6 +2708,112 @@ fn run_build_ops(ctx: &Ctx, stats: &Stats, bs: &BuildStats, wd: &Watchdog, ops: 
             bs.checks_ok.fetch_add(1, AO::Relaxed);
         }
     }
+    lens
+}
+
+/// Alphabet of the truncation / size-limit family.
+const TL_OPS: [Op; 7] = [Op::Q(1), Op::R(1, 1, Rd::A), Op::R(1, 3, Rd::Cname(1)), Op::R(2, 0, Rd::Ns(3)), Op::R(3, 1, Rd::A), Op::Truncate, Op::NewMessage];
+
+fn run_tl_case(ctx: &Ctx, stats: &Stats, bs: &BuildStats, wd: &Watchdog, seq: &[usize], only_limit: Option<usize>, names: &[Vec<u8>]) {
+    let ops: Vec<Op> = seq.iter().map(|i| TL_OPS[*i]).collect();
+    let key = seq.iter().fold(0x3B1D5C7E9F204A61u64, |h, i| (h ^ (*i as u64 + 1)).wrapping_mul(0x100000001b3));
+    if let Some(l) = only_limit {
+        run_build_ops_limited(ctx, stats, bs, wd, &ops, &json!({"part": "build-limit", "seq": seq}), key ^ l as u64, names, Some(l));
+        return;
+    }
+    let lens = run_build_ops_limited(ctx, stats, bs, wd, &ops, &json!({"part": "build-limit", "seq": seq}), key, names, None);
+    // every size limit from the bare header to the unlimited size
+    let max = lens[0].max(lens[1]).max(12);
+    for l in 12..=max {
+        run_build_ops_limited(ctx, stats, bs, wd, &ops, &json!({"part": "build-limit", "seq": seq}), key ^ ((l as u64) << 32), names, Some(l));
+    }
+}
+
+fn edns_case_ops(pre: bool, e: [usize; 5], post: bool) -> Vec<Op> {
+    let mut ops = Vec::new();
+    if pre {
+        ops.push(Op::Q(1));
+        ops.push(Op::R(1, 1, Rd::A));
+    }
+    ops.push(Op::Edns(e[0] as u8, e[1] as u8, e[2] as u8, e[3] == 1, e[4] as u8));
+    if post {
+        ops.push(Op::R(3, 1, Rd::A));
+    }
+    ops
+}
+
+/// Header flag family: the same flag values set through the setters of both
+/// codecs must give the same header octets (and the octets RFC 1035 4.1.1 says).
+fn run_flags_case(ctx: &Ctx, stats: &Stats, bits7: u8, opcode: u8, rcode: u8) {
+    stats.eval();
+    let f = |i: u8| bits7 >> i & 1 == 1;
+    let (qr, aa, tc, rd, ra, ad, cd) = (f(0), f(1), f(2), f(3), f(4), f(5), f(6));
+    let want: u16 = (qr as u16) << 15 | (opcode as u16) << 11 | (aa as u16) << 10 | (tc as u16) << 9 | (rd as u16) << 8 | (ra as u16) << 7 | (ad as u16) << 5 | (cd as u16) << 4 | rcode as u16;
+    let case = || json!({"part": "build-flags", "bits7": bits7, "opcode": opcode, "rcode": rcode});
+    let r = guard(|| {
+        // established builder
+        let mut ob_ = ob::MessageBuilder::new_vec();
+        {
+            let h = ob_.header_mut();
+            h.set_qr(qr);
+            h.set_opcode(ob::iana::Opcode::from_int(opcode));
+            h.set_aa(aa);
+            h.set_tc(tc);
+            h.set_rd(rd);
+            h.set_ra(ra);
+            h.set_ad(ad);
+            h.set_cd(cd);
+            h.set_rcode(ob::iana::Rcode::masked_from_int(rcode));
+        }
+        let old = ob_.finish();
+        // new builder: flags given at construction ...
+        let mut flags = HeaderFlags::default();
+        flags.set_qr(qr).set_opcode(opcode).set_aa(aa).set_tc(tc).set_rd(rd).set_ra(ra).set_ad(ad).set_cd(cd).set_rcode(rcode);
+        let mut buf1 = [0u8; 12];
+        let mut c1 = NameCompressor::new();
+        let b1 = NewBuilder::new(&mut buf1, &mut c1, U16::new(0), flags);
+        use domain::new::base::wire::AsBytes;
+        let new1 = b1.finish().as_bytes().to_vec();
+        // ... and set afterwards through header_mut()
+        let mut buf2 = [0u8; 12];
+        let mut c2 = NameCompressor::new();
+        let mut b2 = NewBuilder::new(&mut buf2, &mut c2, U16::new(0), HeaderFlags::default());
+        b2.header_mut().flags.set_rcode(rcode).set_cd(cd).set_ad(ad).set_ra(ra).set_rd(rd).set_tc(tc).set_aa(aa).set_opcode(opcode).set_qr(qr);
+        let hdr_bits = b2.header().flags.bits();
+        let new2 = b2.finish().as_bytes().to_vec();
+        // read each with the other codec's accessors
+        let nm = nb::Message::parse_bytes_by_ref(&old).expect("12 octets");
+        let nf = nm.header.flags;
+        let new_reads_old = (nf.qr(), nf.opcode(), nf.aa(), nf.tc(), nf.rd(), nf.ra(), nf.ad(), nf.cd(), nf.rcode());
+        let om = ob::Message::from_octets(new1.clone()).expect("12 octets");
+        let oh = om.header();
+        let old_reads_new = (oh.qr(), oh.opcode().to_int(), oh.aa(), oh.tc(), oh.rd(), oh.ra(), oh.ad(), oh.cd(), oh.rcode().to_int());
+        (old, new1, new2, hdr_bits, new_reads_old, old_reads_new)
+    });
+    match r {
+        Err(p) => {
+            ctx.violation(&format!("C19|build-flags|panic|{}", panic_class(&p)), &p, case());
+        }
+        Ok((old, new1, new2, hdr_bits, nro, orn)) => {
+            let w = want.to_be_bytes();
+            let tuple = (qr, opcode, aa, tc, rd, ra, ad, cd, rcode);
+            if old[2..4] != w {
+                ctx.violation("C19|build-flags|established-setters|header-octets-differ-from-RFC1035", &format!("flags word {:02x}{:02x}, expected {want:04x}", old[2], old[3]), case());
+            }
+            if new1[2..4] != w || new2[2..4] != w || hdr_bits != want {
+                ctx.violation("C19|build-flags|new-setters|header-octets-differ-from-RFC1035-and-established", &format!("flags word {:02x}{:02x} (at construction) / {:02x}{:02x} (header_mut) / bits() {hdr_bits:04x}, expected {want:04x}", new1[2], new1[3], new2[2], new2[3]), case());
+            }
+            if nro != tuple {
+                ctx.violation("C19|build-flags|new-accessors-read-established-header-differently", &format!("{nro:?} vs set {tuple:?}"), case());
+            }
+            if orn != tuple {
+                ctx.violation("C19|build-flags|established-accessors-read-new-header-differently", &format!("{orn:?} vs set {tuple:?}"), case());
+            }
+            if old.len() != 12 || new1.len() != 12 || old[4..] != new1[4..] {
+                ctx.violation("C19|build-flags|empty-message-differs", "the two builders' empty messages differ beyond the flags", case());
+            }
+        }
+    }
 }
 
 // --------------------------------------------------------------------- main
@@ -2260,12 +2844,36 @@ fn main() {
         misplaced: AtomicU64::new(0),
         pad_skipped: AtomicU64::new(0),
         checks_ok: AtomicU64::new(0),
+        limited: AtomicU64::new(0),
+        truncated_pushes: AtomicU64::new(0),
     };
     if let Some(path) = &ctx.replay {
         let v: Value = serde_json::from_str(&std::fs::read_to_string(path).expect("replay file")).expect("json");
         let case = &v["case"];
         println!("replaying {}", v["signature"]);
-        if case["part"].as_str() == Some("build-small") {
+        if case["part"].as_str() == Some("build-flags") {
+            run_flags_case(&ctx, &stats, case["bits7"].as_u64().unwrap() as u8, case["opcode"].as_u64().unwrap() as u8, case["rcode"].as_u64().unwrap() as u8);
+        } else if case["part"].as_str() == Some("build-edns") {
+            let e: Vec<usize> = case["edns"].as_array().expect("edns").iter().map(|x| x.as_u64().unwrap() as usize).collect();
+            let ops = edns_case_ops(case["pre"].as_bool().unwrap(), [e[0], e[1], e[2], e[3], e[4]], case["post"].as_bool().unwrap());
+            for o in &ops {
+                println!("  {}", op_desc(*o, &names));
+            }
+            run_build_ops(&ctx, &stats, &bs, &wd, &ops, case, 0, &names);
+        } else if case["part"].as_str() == Some("build-limit") {
+            let seq: Vec<usize> = case["seq"].as_array().expect("seq").iter().map(|x| x.as_u64().unwrap() as usize).collect();
+            for i in &seq {
+                println!("  {}", op_desc(TL_OPS[*i], &names));
+            }
+            println!("  size limit: {:?}", case["limit"].as_u64());
+            match case["limit"].as_u64() {
+                Some(l) => run_tl_case(&ctx, &stats, &bs, &wd, &seq, Some(l as usize), &names),
+                None => {
+                    let ops: Vec<Op> = seq.iter().map(|i| TL_OPS[*i]).collect();
+                    run_build_ops_limited(&ctx, &stats, &bs, &wd, &ops, case, 0, &names, None);
+                }
+            }
+        } else if case["part"].as_str() == Some("build-small") {
             let seq: Vec<usize> = case["names"].as_array().expect("names").iter().map(|x| x.as_u64().unwrap() as usize).collect();
             for n in &seq {
                 println!("  answer A record owned by {}", name_text(&names, *n));
@@ -2410,6 +3018,11 @@ fn main() {
     for n in 0..12 {
         run_parse_case(&ctx, &stats, &wd, &vec![0xC0; n], &[12], "short");
     }
+    // every header flags word (accessors of both codecs)
+    (0..=0xFFFFu32).into_par_iter().for_each(|fl| {
+        let m = header_id(0xABCD, fl as u16, [0; 4]);
+        run_parse_case(&ctx, &stats, &wd, &m, &[12], "all-flag-words");
+    });
     let mut big = header_id(0xABCD, 0x8400, [0, 0xFFFF, 0, 0]);
     while big.len() < 65535 {
         big.extend_from_slice(&[0xC0, 0x0C]);
@@ -2453,6 +3066,38 @@ fn main() {
             }
         }
     }
+    // EDNS family: every combination of the EDNS field menus, with and
+    // without items before and after the record
+    let edns_sizes = [EDNS_PAYLOADS.len(), EDNS_EXT.len(), EDNS_VER.len(), 2, edns_optsets().len(), 2, 2];
+    let mut edns_cases: Vec<Vec<usize>> = Vec::new();
+    product(&edns_sizes, |ix| edns_cases.push(ix.to_vec()));
+    stats.count_n("gen.edns_scripts", edns_cases.len() as u64);
+    edns_cases.par_iter().for_each(|ix| {
+        let ops = edns_case_ops(ix[5] == 1, [ix[0], ix[1], ix[2], ix[3], ix[4]], ix[6] == 1);
+        let key = ix.iter().fold(0x6C8E9CF570932BD5u64, |h, i| (h ^ (*i as u64 + 1)).wrapping_mul(0x100000001b3));
+        run_build_ops(&ctx, &stats, &bs, &wd, &ops, &json!({"part": "build-edns", "edns": &ix[..5], "pre": ix[5] == 1, "post": ix[6] == 1}), key, &names);
+    });
+    // truncation / size-limit family (new builder): every sequence over
+    // TL_OPS, unlimited and with every size limit from 12 to the full size
+    let tl_len = if quick { 3 } else { 4 };
+    let tl_alphabet: Vec<usize> = (0..TL_OPS.len()).collect();
+    for d in 1..=tl_len {
+        (0..pow(tl_alphabet.len(), d)).into_par_iter().for_each(|k| {
+            let mut seq = Vec::new();
+            nth_string(&tl_alphabet, d, k, &mut seq);
+            run_tl_case(&ctx, &stats, &bs, &wd, &seq, None, &names);
+        });
+    }
+    // header flag setters / accessors of both codecs: all flag combinations
+    let opcodes: [u8; 6] = [0, 1, 2, 4, 5, 15];
+    let rcodes: [u8; 5] = [0, 1, 3, 5, 15];
+    (0..128u32).into_par_iter().for_each(|b7| {
+        for oc in opcodes {
+            for rc in rcodes {
+                run_flags_case(&ctx, &stats, b7 as u8, oc, rc);
+            }
+        }
+    });
     // small-alphabet family: every sequence of 2..len names over every name
     // of 1..3 labels over the first k labels
     let sm_bounds: &[(usize, usize)] = if quick { &[(4, 3)] } else { &[(3, 4), (5, 3)] };
@@ -2500,9 +3145,9 @@ fn main() {
     let cov = json!({
         "evaluations": stats.evals(),
         "distinct_nontrivial": stats.nontrivial.load(AO::Relaxed).min(stats.distinct_count()),
-        "rule": "Part 1: one case = one message (C01 grammar: header variants x 1..2 items (quick) / 1..3 items (thorough) from per-field menus with pointers to every landmark; every truncation of short one-item messages; every raw body over 9 symbols to raw_len after 4 headers) with every unit (compressed name in 4 views + UnparsedName, flat name in 3 views, question and record in 2 views each, character string) parsed at every landmark offset (raw: every offset) and the whole message parsed through the iterators / low-level API / MessageParser by both codecs; non-trivial = both codecs accepted a name containing a compression pointer, a record with non-empty RDATA, or at least one whole-message item; distinct = distinct message octets. Part 2: one case = (operation sequence, builder); non-trivial = the built message contains at least one compression pointer (independent reader); distinct = distinct (sequence, builder)",
+        "rule": "Part 1: one case = one message (C01 grammar: header variants x 1..2 items (quick) / 1..3 items (thorough) from per-field menus with pointers to every landmark; every truncation of short one-item messages; every raw body over 9 symbols to raw_len after 4 headers; every one of the 65536 header flag words on an empty message) with every unit (compressed name in 4 views + UnparsedName (message and flat), flat name in 3 views, label, question and record in 2 views each plus their compression-less entry points with re-serialisation, character string (&CharStr, CharStrBuf, re-serialisation), name conversions From<&base::Name> and name equality) parsed at every landmark offset (raw: every offset) and the whole message parsed through the iterators / low-level API / MessageParser by both codecs, including the header flag accessors, the EDNS view of OPT records (payload size, extended rcode, version, DO, options) and BoxedRecordData as a second typed representation; non-trivial = both codecs accepted a name containing a compression pointer, a record with non-empty RDATA, or at least one whole-message item; distinct = distinct message octets. Part 2: one case = (operation sequence, builder); non-trivial = the built message contains at least one compression pointer (independent reader); distinct = distinct (sequence, builder)",
         "exhaustive": true,
-        "bound": {"parse_items": if quick { 2 } else { 3 }, "raw_len": rawlen, "raw_alphabet": raw, "build_depth": depth, "build_alphabet": OPS.iter().map(|o| op_desc(*o, &names)).collect::<Vec<_>>(), "build_long": format!("head: every sequence of 0..2 of {{alpha., c.alpha., beta., c.beta.}}; then k = 0..{} distinct unrelated one-label names; tail: every sequence of 1..{} of the four; all answer A records", LRU_FILLERS - 1, tail_max), "build_small_alphabet": format!("every sequence of 2..len names (answer A records owned by the name) over all names of 1..3 one-octet labels over the first k of {:?}; (k, len) = {:?}", SM_LABELS.iter().map(|b| *b as char).collect::<Vec<_>>(), sm_bounds), "build_bit5": format!("every sequence of 1..{} items over {{a<b>.example., www.a<b>.example. : b in {:02x?}}} x {{owner of an A record, target of an NS record owned by example.}}", fold_len, FOLD_BYTES)},
+        "bound": {"parse_items": if quick { 2 } else { 3 }, "raw_len": rawlen, "raw_alphabet": raw, "build_depth": depth, "build_alphabet": OPS.iter().map(|o| op_desc(*o, &names)).collect::<Vec<_>>(), "build_long": format!("head: every sequence of 0..2 of {{alpha., c.alpha., beta., c.beta.}}; then k = 0..{} distinct unrelated one-label names; tail: every sequence of 1..{} of the four; all answer A records", LRU_FILLERS - 1, tail_max), "build_edns": "every combination of payload {0,512,1232,65535} x ext_rcode {0,1,255} x version {0,1,255} x DO x 6 option sets (none, client cookie, full cookie, extended error, unknown code, two options) x {alone, after question+answer} x {last, followed by an additional A record}; new builder with options as &Opt and as a slice of typed EdnsOption, established builder through opt()", "build_truncate_limit": format!("new builder: every sequence of 1..{} of {{question, answer A, answer CNAME, authority NS, additional A, truncate(), finish+new message with the same compressor}} unlimited and under limit_to(L) for every L from 12 to the unlimited size", tl_len), "build_flags": "all 128 combinations of QR AA TC RD RA AD CD x opcode {0,1,2,4,5,15} x rcode {0,1,3,5,15} through both codecs' setters, read back through both codecs' accessors", "build_small_alphabet": format!("every sequence of 2..len names (answer A records owned by the name) over all names of 1..3 one-octet labels over the first k of {:?}; (k, len) = {:?}", SM_LABELS.iter().map(|b| *b as char).collect::<Vec<_>>(), sm_bounds), "build_bit5": format!("every sequence of 1..{} items over {{a<b>.example., www.a<b>.example. : b in {:02x?}}} x {{owner of an A record, target of an NS record owned by example.}}", fold_len, FOLD_BYTES)},
         "parse_cases": parse_evals,
         "unit_view_outcomes": Value::Object(hist),
         "distinct_unit_outcomes_observed": outcomes_seen,
@@ -2523,6 +3168,8 @@ fn main() {
             "pushes_accepted": g(&bs.accepted),
             "pushes_misplaced(both refuse)": g(&bs.misplaced),
             "pad_ops_not_applicable": g(&bs.pad_skipped),
+            "cases_with_a_size_limit": g(&bs.limited),
+            "pushes_refused_as_Truncated_under_a_limit": g(&bs.truncated_pushes),
             "outputs_read_back_equal_by_other_codec_and_independent_reader": g(&bs.checks_ok),
         },
         "samples": stats.samples(),
